@@ -49,6 +49,10 @@ function vmut(n, a, b) return ops(n, a, b) end
 function vmut_p(n, a, b) local ok, e = pcall(ops, n, a, b) return ok end
 function vcall(other, n, a, b) return contract.call(other, "mut", n, a, b) end
 function vnest(n, a, b) return vmut(n, a, b) end
+function pv() end
+function vrc(other, n, a, b) pcall(function() contract.call.value(1)(other, "pv") end) return ops(n, a, b) end
+function vrc2(other, n, a, b) pcall(function() contract.call.value(1)(other, "pv") end) pcall(function() contract.call.value(1)(other, "pv") end) return ops(n, a, b) end
+function nrc(other, n, a, b) pcall(function() contract.call.value("900000000 aergo")(other, "pv") end) return vmut(n, a, b) end
 function vafc(other, n, a, b) pcall(contract.call, other, "mut", "nosuchop") return ops(n, a, b) end
 function vafcp(other, n, a, b) contract.pcall(contract.call, other, "mut", "nosuchop") return ops(n, a, b) end
 function callsview(n, a, b) return vmut(n, a, b) end
@@ -57,9 +61,9 @@ function noop() end
 function default() end
 function check_delegation(fname, n, a, b) local ok = pcall(ops, n, a, b) return not ok end
 function fd(n, a, b) end
-abi.register(mut, noop, fd, callsview)
-abi.register_view(vmut, vmut_p, vcall, vnest, vafc, vafcp, read)
-abi.payable(default, noop, constructor)
+abi.register(mut, noop, fd, callsview, nrc)
+abi.register_view(vmut, vmut_p, vcall, vnest, vafc, vafcp, vrc, vrc2, pv, read)
+abi.payable(default, noop, constructor, pv)
 abi.fee_delegation(fd)
 `
 
@@ -270,6 +274,19 @@ func run(c *vf.Ctx, ver int, eps map[string][]string) {
 		}},
 		{"view-tx:after-failed-nested-call-contract.pcall", func(op string, a interface{}) (bool, string, []string, bool) {
 			st, ret, bad, ok := viaTx(types.TxType_CALL, M, call("vafcp", types.EncodeAddress(O), op, a), user.Addr)
+			return st == "ERROR" || st == "skipped", st + " " + ret, bad, ok
+		}},
+		{"view-tx:after-refused-value-call", func(op string, a interface{}) (bool, string, []string, bool) {
+			// a call with an amount to a payable view function is refused before the callee starts
+			st, ret, bad, ok := viaTx(types.TxType_CALL, M, call("vrc", types.EncodeAddress(O), op, a), user.Addr)
+			return st == "ERROR" || st == "skipped", st + " " + ret, bad, ok
+		}},
+		{"view-tx:after-two-refused-value-calls", func(op string, a interface{}) (bool, string, []string, bool) {
+			st, ret, bad, ok := viaTx(types.TxType_CALL, M, call("vrc2", types.EncodeAddress(O), op, a), user.Addr)
+			return st == "ERROR" || st == "skipped", st + " " + ret, bad, ok
+		}},
+		{"normal-tx:refused-value-call-then-own-view", func(op string, a interface{}) (bool, string, []string, bool) {
+			st, ret, bad, ok := viaTx(types.TxType_CALL, M, call("nrc", types.EncodeAddress(O), op, a), user.Addr)
 			return st == "ERROR" || st == "skipped", st + " " + ret, bad, ok
 		}},
 		{"query:after-failed-nested-call", func(op string, a interface{}) (bool, string, []string, bool) {
